@@ -1076,7 +1076,7 @@ def aux_view(db: Any) -> Dict[str, int]:
 
 def compare_loaded(ref: Any, ref_beh: List[Any], db: Any, how: str) -> List[Tuple[str, str]]:
     out: List[Tuple[str, str]] = []
-    for d in R.diff(db_view(ref), db_view(db), ignore=ignore_field):
+    for d in R.diff(db_view(ref), db_view(db), ctx=("Database", "documents"), ignore=ignore_field):
         out.append((f"C11/order/{how}/{d.pair}", f"at {list(d.path)}: {d.a} vs {d.b}"))
     if ref.short_name != db.short_name:
         out.append((f"C11/entrypoint/{how}/Database.short_name", f"{ref.short_name!r} (load_pdx_file reads index.xml) vs {db.short_name!r}"))
